@@ -2,7 +2,7 @@ CONSTANTS
   CropClamp = TRUE
   StartClamp = TRUE
   CtorLen = TRUE
-  CropUpper = TRUE
+  CropUpper = FALSE
   MCDepth = 3
 SPECIFICATION Spec
 INVARIANT Refines
